@@ -1,12 +1,11 @@
-\* pattern A: every abstract site of <= 4 entries in 2 disassemblies (entry types c/b, with and without entry
-\* points and mid-block comments, one cross reference from an entry or a page), both path layouts, decimal and
-\* hex anchors, single-page on/off: the documented file set and link rule imply the C16 invariants.
+\* the same sites as Site_mcq.cfg with the model of what skoolkit did before c7a4346 (operands that address an @remote
+\* entry linked to #anchor on the current single page): TLC must find DocFragmentExists violated (the invariants can fail).
 SPECIFICATION Spec
 CONSTANTS
   MaxEntries = 3
   MaxRefs = 1
   Types = {"c", "b"}
-  Pts = {0, 2}
+  Pts = {2}
   Layouts = {2}
   AnchorKinds = {"x"}
   Deviation = "single-remote-operand"
